@@ -18,7 +18,7 @@ From Coq Require Import List Arith Bool.
 From PA Require Import base.Npy model.CacheCommon model.BasisDir proofs.BasisDirProofs.
 From PA Require model.CacheBasex model.CacheDaun model.CacheDasch model.CacheLinbasex model.CacheRbasex
   proofs.CacheBasexProofs proofs.CacheDaunProofs proofs.CacheDaschProofs proofs.CacheLinbasexProofs
-  proofs.CacheRbasexProofs proofs.TriangularCrop.
+  proofs.CacheRbasexProofs proofs.CacheRbasexInv proofs.TriangularCrop.
 Import ListNotations.
 
 (* ---- basex: holds for every history --------------------------------------------- *)
@@ -125,6 +125,20 @@ Theorem C07_linbasex_order_key_collision_refuted :
 Proof. exact CacheLinbasexProofs.order_key_collision_refuted. Qed.
 Print Assumptions C07_linbasex_order_key_collision_refuted.
 
+(* ---- rbasex: holds with the recorded defective paths excluded ------------------------------------------ *)
+(* hazards (model/CacheRbasex.v `hazard`): a call whose Distributions raises,
+   an invalid reg, an unwritable basis_dir, reuse of the cached Distributions
+   object after the weights changed in place, reuse of the cached image basis
+   for another output geometry, direct calls of the accessor get_bs_cached;
+   each has its refutation theorem below.  The quantities computed by
+   abel.tools.vmi.Distributions (rmax, valid mask, output geometry) are inputs
+   of the model, assumed to be functions of (parameters, weights content). *)
+Theorem C07_rbasex_history_independent_partial : forall ops,
+  CacheRbasex.no_hazard CacheRbasex.init ops = true -> CacheRbasex.no_damage ops = true ->
+  CacheRbasex.all_agree CacheRbasex.init ops = true.
+Proof. exact CacheRbasexInv.history_independent_partial. Qed.
+Print Assumptions C07_rbasex_history_independent_partial.
+
 (* ---- rbasex: the findings --------------------------------------------------------------------------------- *)
 (* F5 *)
 Theorem C07_rbasex_ibs_refuted :
@@ -156,6 +170,22 @@ Theorem C07_rbasex_invalid_reg_twice_refuted :
   res_code (CacheRbasex.fresh CacheRbasexProofs.rg_call) = exc_code EValue.
 Proof. exact CacheRbasexProofs.invalid_reg_twice_refuted. Qed.
 Print Assumptions C07_rbasex_invalid_reg_twice_refuted.
+
+(* _trf / _tri not keyed by the valid mask (public accessor get_bs_cached) *)
+Theorem C07_rbasex_accessor_mask_refuted :
+  res_code (CacheRbasex.last_result [CacheRbasex.Call CacheRbasexProofs.acc_call7] CacheRbasexProofs.acc_get) = 0 /\
+  res_code (CacheRbasex.fresh CacheRbasexProofs.acc_get) = 0 /\
+  CacheRbasex.out_eqv (CacheRbasex.last_result [CacheRbasex.Call CacheRbasexProofs.acc_call7] CacheRbasexProofs.acc_get)
+                      (CacheRbasex.fresh CacheRbasexProofs.acc_get) = false.
+Proof. exact CacheRbasexProofs.accessor_mask_refuted. Qed.
+Print Assumptions C07_rbasex_accessor_mask_refuted.
+
+Theorem C07_rbasex_accessor_poisons_transform_refuted :
+  res_code (CacheRbasex.last_result CacheRbasexProofs.acc_hist (CacheRbasex.Call CacheRbasexProofs.acc_callok)) = 0 /\
+  CacheRbasex.out_eqv (CacheRbasex.last_result CacheRbasexProofs.acc_hist (CacheRbasex.Call CacheRbasexProofs.acc_callok))
+                      (CacheRbasex.fresh (CacheRbasex.Call CacheRbasexProofs.acc_callok)) = false.
+Proof. exact CacheRbasexProofs.accessor_poisons_transform_refuted. Qed.
+Print Assumptions C07_rbasex_accessor_poisons_transform_refuted.
 
 (* ---- basis-directory helpers ------------------------------------------------------------------------------------ *)
 Theorem C07_basis_dir_resolution : forall a,
